@@ -125,6 +125,38 @@ func commits(ap *auxpow.AuxPow, hash common.Uint256, chainID int) (ok bool, why 
 	return true, ""
 }
 
+// commitsHex: the property statement read on the hex string of the script with
+// the marker at an ODD nibble offset (the class of the recorded finding):
+// parent merkle ok, exactly one "fabe6d6d" in the hex string, the 64 root
+// nibbles start exactly 8 nibbles after it, and the 8 bytes at byte offset
+// (offset+72)/2 are 2^height and a nonce whose slot is the aux index.
+func commitsHex(ap *auxpow.AuxPow, hash common.Uint256, chainID int) bool {
+	cb := cbHashOf(&ap.ParCoinbaseTx)
+	if !bytes.Equal(merkleRoot(cb[:], ap.ParCoinBaseMerkle, ap.ParMerkleIndex), ap.ParBlockHeader.MerkleRoot[:]) {
+		return false
+	}
+	if len(ap.ParCoinbaseTx.TxIn) == 0 {
+		return false
+	}
+	script := ap.ParCoinbaseTx.TxIn[0].SignatureScript
+	hs := fmt.Sprintf("%x", script)
+	hi := strings.Index(hs, "fabe6d6d")
+	if hi < 0 || hi%2 != 1 || strings.Count(hs, "fabe6d6d") != 1 {
+		return false
+	}
+	root := merkleRoot(rev(hash[:]), ap.AuxMerkleBranch, ap.AuxMerkleIndex)
+	rh := fmt.Sprintf("%x", rev(root))
+	if len(hs) < hi+8+64 || hs[hi+8:hi+72] != rh || strings.Index(hs, rh) != hi+8 {
+		return false
+	}
+	pos := (hi + 72) / 2
+	h := len(ap.AuxMerkleBranch)
+	if len(script) < pos+8 || h >= 32 || binary.LittleEndian.Uint32(script[pos:]) != uint32(1)<<uint(h) {
+		return false
+	}
+	return ap.AuxMerkleIndex == expectedIndex(binary.LittleEndian.Uint32(script[pos+4:]), chainID, h)
+}
+
 func coqBytesN(b []byte) string { return lib.CoqBytes(b) + "%N" }
 
 func coqHashes(hs []common.Uint256) string {
@@ -219,7 +251,7 @@ func main() {
 	run := lib.ParseArgs()
 	elaenv.InitLog(run.Out)
 	rng := lib.NewRng(run.Seed)
-	st := lib.NewStats("C10", "proofs from auxpow.GenerateAuxPow and constructed valid proofs (aux branch lengths 0..33, parent branch lengths 0..5, random nonce/chain id, 0..6 script prefix bytes, 0..5 suffix bytes, 1..2 coinbase inputs), then single-field mutations (block hash, aux branch element, aux index, branch length, nonce, size, chain id, marker byte, root byte, parent branch/index/root, coinbase script, no input, truncated tail), marker at every nibble offset 0..9, two markers (before/after/overlapping), root hex occurring early or apart from the marker; object reuse (check, then in-place change of each coinbase/header/branch field, check, restore, check; Deserialize of a forged and of another valid proof into the used AuxPow / BtcTx; GenerateAuxPow script retargeted) with the coinbase hash given to the model and the oracle always recomputed from the serialization; GetExpectedIndex on boundary heights -1..33 and GetMerkleRoot on indexes incl. -1. nontrivial = the parent merkle check passed and a marker was found (the commitment logic ran); distinct by serialized proof+hash+chain id")
+	st := lib.NewStats("C10", "proofs from auxpow.GenerateAuxPow and constructed valid proofs (aux branch lengths 0..33, parent branch lengths 0..5, random nonce/chain id, 0..6 script prefix bytes, 0..5 suffix bytes, 1..2 coinbase inputs), then single-field mutations (block hash, aux branch element, aux index, branch length, nonce, size, chain id, marker byte, root byte, parent branch/index/root, coinbase script, no input, truncated tail), marker at every nibble offset 0..9, two markers (before/after/overlapping), root hex occurring early or apart from the marker; every nibble distance -1..+3 between marker and root for marker offsets 0..3 with boundary nibbles that keep the size/nonce parseable; object reuse (check, then in-place change of each coinbase/header/branch field, check, restore, check; Deserialize of a forged and of another valid proof into the used AuxPow / BtcTx; GenerateAuxPow script retargeted) with the coinbase hash given to the model and the oracle always recomputed from the serialization; GetExpectedIndex on boundary heights -1..33 and GetMerkleRoot on indexes incl. -1. nontrivial = the parent merkle check passed and a marker was found (the commitment logic ran); distinct by serialized proof+hash+chain id")
 	sh := &lib.Shards{Dir: run.Out, Imports: "From ELA Require Import model.C10_AuxPow corr.C10_corr.", CaseType: "C10_corr.case",
 		Mismatch: "C10_corr.mismatches", Scope: "Z", PerShard: 25}
 	id := 0
@@ -264,8 +296,10 @@ func main() {
 		if out {
 			ok, why := commits(ap, hash, chainID)
 			if !ok {
-				hexs := fmt.Sprintf("%x", script)
-				if countSub(script, marker) == 0 && strings.Index(hexs, "fabe6d6d")%2 == 1 {
+				// the recorded finding is exactly: the statement holds on the HEX string
+				// (one marker, root immediately after it, size/nonce where the code reads
+				// them) with the marker at an odd nibble offset; anything else is new
+				if countSub(script, marker) == 0 && commitsHex(ap, hash, chainID) {
 					st.Fail(sigNibble, "accepted although the script bytes contain no merged-mining marker (hex match at an odd nibble offset)", in)
 				} else {
 					st.Fail("auxpow.Check:accepted-without-commitment", "accepted a proof that does not commit to this block: "+why, in)
@@ -477,6 +511,51 @@ func main() {
 			}
 			ap := build(s)
 			observe(ap, s.hash, s.chainID, fmt.Sprintf("two-markers:%d", variant), false)
+		}
+		// every nibble distance between the end of the marker and the start of the root: -1 (the root
+		// overlaps the marker's last nibble, so it starts with d), 0 (adjacent), +1..+3 stray nibbles; both
+		// marker parities; boundary nibbles chosen so that the size/nonce bytes still parse wherever a
+		// reader that lost the parity would look (root ending in nibble 0 followed by "1000000" when it
+		// ends on an odd nibble)
+		for prelen := 0; prelen <= 3; prelen++ {
+			for gap := -1; gap <= 3; gap++ {
+				hash := randHash(rng)
+				if gap == -1 {
+					hash[0] = 0xd0 | hash[0]&0x0f
+				}
+				pre := ""
+				for k := 0; k < prelen; k++ {
+					pre += fmt.Sprintf("%x", rng.Intn(16))
+				}
+				mk := "fabe6d6d"
+				stray := ""
+				if gap < 0 {
+					mk = mk[:8+gap]
+				}
+				for k := 0; k < gap; k++ {
+					stray += fmt.Sprintf("%x", 1+rng.Intn(9))
+				}
+				end := prelen + len(mk) + len(stray) + 64
+				nonce := fmt.Sprintf("%x", le32(uint32(rng.U64())))
+				tail := "01000000" + nonce
+				if end%2 == 1 {
+					hash[31] &= 0xf0
+					tail = "1" + "000000" + nonce + "0000"
+				}
+				nib := pre + mk + stray + fmt.Sprintf("%x", hash[:]) + tail
+				if len(nib)%2 == 1 {
+					nib += "0"
+				}
+				if strings.Count(nib, "fabe6d6d") != 1 {
+					continue
+				}
+				script := make([]byte, len(nib)/2)
+				fmt.Sscanf(nib, "%x", &script)
+				acc := observe(withScript(spec{hash: hash}, script, 0), hash, 1224, fmt.Sprintf("marker@%d:root-distance=%d", prelen, gap), false)
+				if gap == 0 && prelen%2 == 0 && !acc {
+					st.Fail("auxpow.Check:valid-rejected", "an aligned marker immediately followed by the root is rejected", map[string]interface{}{"script": nib})
+				}
+			}
 		}
 		// marker and root both present but not adjacent (gap), or the root with its size/nonce first and the marker later
 		for gap := 1; gap <= 3; gap++ {
